@@ -6,10 +6,20 @@
 #include "vall.h"
 #include "vuri.h"
 #include "spec_path.h"
+#include "spec_normalize.h"
 #include "vframe.h"
 
 #ifndef KF_C10_AUTHORITY_USERINFO_PORT
 # define KF_C10_AUTHORITY_USERINFO_PORT 0
+#endif
+#ifndef KF_C10_EMPTY_SOURCE_PATH
+# define KF_C10_EMPTY_SOURCE_PATH 0
+#endif
+#ifndef KF_C10_DOMAINROOT_ROOTLESS
+# define KF_C10_DOMAINROOT_ROOTLESS 0
+#endif
+#ifndef KF_C10_HOSTLESS_ROOTEDNESS
+# define KF_C10_HOSTLESS_ROOTEDNESS 0
 #endif
 #ifndef KF_C10_EMPTY_REF_KEEPS_BASE_QUERY
 # define KF_C10_EMPTY_REF_KEEPS_BASE_QUERY 0
@@ -34,13 +44,14 @@ void harness(void) {
 	struct vf_snap sns, snb;
 	struct sv_view vs, vb, vd, vt;
 	struct sv_path sdots;
-	int ret, live0, ok, sameScheme, sameAuth, hostOnlySame;
+	int ret, live0, ok, sameScheme, sameAuth, hostOnlySame, canOmitScheme;
 	ND(unsigned long long, failmask);
 	ND(unsigned char, domainRoot);
 	ND(unsigned char, gk);
 	VU_INPUT(s);
 	VU_INPUT(b);
 	__CPROVER_assume(vu_shape_ok(&s, s_pool) && vu_shape_ok(&b, b_pool));
+	__CPROVER_assume(vu_legal(&s, s_pool) && vu_legal(&b, b_pool));
 	__CPROVER_assume(domainRoot <= 1 && gk < VT);
 #ifdef V_NOFAIL
 	__CPROVER_assume(failmask == 0);
@@ -78,15 +89,17 @@ void harness(void) {
 		sameAuth = sv_auth_eq(&vs, &vb);
 		hostOnlySame = host_eq(&vs, &vb);
 		VCOVER(sameScheme && sameAuth && vd.path.n == 2 * VM - 1, "shared scheme and authority, reference path of 2*VM-1 segments");
-		if (!sameScheme) {
+		/* a reference without scheme can denote S only if S's authority can be expressed: S has one, or the base has none */
+		canOmitScheme = sameScheme && !(vs.hostkind == VU_HK_NONE && vb.hostkind != VU_HK_NONE);
+		if (!canOmitScheme) {
 			VPOST("C10", sv_txt_eq(&vd.scheme, &vs.scheme) && sv_auth_eq(&vd, &vs) && sv_path_eq(&vd.path, &vs.path)
 				&& sv_txt_eq(&vd.query, &vs.query) && sv_txt_eq(&vd.fragment, &vs.fragment),
-				"RemoveBaseUri: schemes differ => the reference is the source unchanged");
+				"RemoveBaseUri: schemes differ (or no scheme-less reference can denote the source) => the reference is the source unchanged");
 		} else {
 			VPOST("C10", vd.scheme.len < 0, "RemoveBaseUri: shared scheme is omitted");
 			VPOST_KF("C10", KF_C10_AUTHORITY_USERINFO_PORT, (hostOnlySame && !sameAuth),
-				(vd.hostkind == VU_HK_NONE) == sameAuth && (sameAuth || sv_auth_eq(&vd, &vs)),
-				"RemoveBaseUri: authority omitted iff user info, host and port are all shared; otherwise it is the source's",
+				sameAuth ? (vd.hostkind == VU_HK_NONE) : sv_auth_eq(&vd, &vs),
+				"RemoveBaseUri: authority omitted when user info, host and port are all shared; otherwise it is the source's",
 				"C10-authority-compared-by-host-only");
 			VPOST("C10", sv_txt_eq(&vd.query, &vs.query) && sv_txt_eq(&vd.fragment, &vs.fragment), "RemoveBaseUri: query and fragment are the source's");
 			VPOST("C10", !(domainRoot && sameAuth) || vd.path.rooted, "RemoveBaseUri: domain-root mode => absolute path");
@@ -94,13 +107,25 @@ void harness(void) {
 		/* inverse of resolution */
 		spec_resolve(&vt, &vd, &vb, 0);
 		spec_remove_dots(&sdots, &vs.path, 0);
-		VPOST_KF("C10", (KF_C10_AUTHORITY_USERINFO_PORT || KF_C10_EMPTY_REF_KEEPS_BASE_QUERY),
-			(KF_C10_AUTHORITY_USERINFO_PORT && sameScheme && hostOnlySame && !sameAuth)
-			|| (KF_C10_EMPTY_REF_KEEPS_BASE_QUERY && sameScheme && vs.query.len < 0 && vb.query.len >= 0),
-			sv_txt_eq(&vt.scheme, &vs.scheme) && sv_auth_eq(&vt, &vs) && path_eq_auth(&vt.path, &sdots, vs.hostkind != VU_HK_NONE)
-			&& sv_txt_eq(&vt.query, &vs.query) && sv_txt_eq(&vt.fragment, &vs.fragment),
-			"RemoveBaseUri: resolving the produced reference against the base gives back the source (after dot-segment removal, empty path under an authority == '/')",
-			"C10-round-trip");
+		{ struct sv_path tdots; spec_remove_dots(&tdots, &vt.path, 0); vt.path = tdots; }   /* both sides compared after dot-segment normalization */
+		{
+			int hostless = (vs.hostkind == VU_HK_NONE && vb.hostkind == VU_HK_NONE);
+			int r_auth = KF_C10_AUTHORITY_USERINFO_PORT && sameScheme && hostOnlySame && !sameAuth;
+			int r_query = KF_C10_EMPTY_REF_KEEPS_BASE_QUERY && sameScheme && vs.query.len < 0 && vb.query.len >= 0;
+			int r_rooted = KF_C10_HOSTLESS_ROOTEDNESS && sameScheme && hostless && vs.path.rooted != vb.path.rooted;
+			int r_domroot = KF_C10_DOMAINROOT_ROOTLESS && sameScheme && hostless && domainRoot && !vs.path.rooted;
+			struct sv_path cs = vs.path, cb = vb.path;
+			int r_emptysrc = (sv_canon(&cs), sv_canon(&cb), KF_C10_EMPTY_SOURCE_PATH && sameScheme && cs.n == 0 && cb.n > 0);
+			int roundtrip = sv_txt_eq(&vt.scheme, &vs.scheme) && sv_auth_eq(&vt, &vs) && path_eq_auth(&vt.path, &sdots, vs.hostkind != VU_HK_NONE)
+				&& sv_txt_eq(&vt.query, &vs.query) && sv_txt_eq(&vt.fragment, &vs.fragment);
+			VPOST("C10", r_auth || r_query || r_rooted || r_domroot || r_emptysrc || roundtrip,
+				"RemoveBaseUri: resolving the produced reference against the base gives back the source (after dot-segment removal, empty path under an authority == '/')");
+			VKF(KF_C10_AUTHORITY_USERINFO_PORT, r_auth, roundtrip, "C10-authority-compared-by-host-only", "round trip");
+			VKF(KF_C10_EMPTY_REF_KEEPS_BASE_QUERY, r_query, roundtrip, "C10-empty-reference-keeps-base-query", "round trip");
+			VKF(KF_C10_HOSTLESS_ROOTEDNESS, r_rooted, roundtrip, "C10-hostless-rootedness-differs", "round trip");
+			VKF(KF_C10_EMPTY_SOURCE_PATH, r_emptysrc, roundtrip, "C10-empty-source-path", "round trip");
+			VKF(KF_C10_DOMAINROOT_ROOTLESS, r_domroot, roundtrip, "C10-domainroot-makes-rootless-source-absolute", "round trip");
+		}
 		VPOST("C07", sv_reparse_safe(&vd), "RemoveBaseUri: result text is read back with the same components");
 		VPOST("C12", dest.owner == URI_FALSE, "RemoveBaseUri: result does not claim ownership of borrowed text");
 	}
